@@ -45,6 +45,8 @@ type Engine struct {
 	recFns      map[string]*PureFn
 	frozenTabs  map[*ssa.Global]*frozenTab
 	frozenMaps  map[*ssa.Global]*frozenTab
+	retFrame    *frame
+	retBlock    *ssa.BasicBlock
 	Fuel        int
 	Tier        string
 	keepingCall bool
@@ -577,6 +579,10 @@ func (e *Engine) runFrom(fr *frame, b *ssa.BasicBlock, idx int, st *State, k con
 			var rets []Value
 			for _, r := range x.Results {
 				rets = append(rets, e.get(fr, r))
+			}
+			if fr.inl == "" && fr.dry == nil {
+				// postconditions may mention the function's named locals as they are at this return
+				e.retFrame, e.retBlock = fr, b
 			}
 			k(st, rets)
 			return
